@@ -4,6 +4,7 @@
 -/
 import Glb.Driver.Filter
 import Glb.Driver.Strutil
+import Glb.Driver.Fsutil
 
 open Glb.Driver
 
@@ -13,4 +14,5 @@ def main (args : List String) : IO UInt32 := do
   match args with
   | ["filter"] => loop stdin stdout ({} : Filter.DSt) Filter.step; return 0
   | ["strutil"] => loop stdin stdout () Strutil.step; return 0
+  | ["fsutil"] => loop stdin stdout () Fsutil.step; return 0
   | _ => IO.eprintln "usage: driver <stream>"; return 2
